@@ -902,6 +902,14 @@ where
             return;
         }
 
+        if !self.has_enough_capacity(new_weight, counters)
+            && (self.has_expiry() || self.has_valid_after())
+        {
+            // Expired or invalidated entries that have not been purged yet must not
+            // take the room of (or compete with) a live candidate.
+            self.evict_expired(deqs, batch_size::EVICTION_BATCH_SIZE, counters);
+        }
+
         if self.has_enough_capacity(new_weight, counters) {
             // There are enough room in the cache (or the cache is unbounded).
             // Add the candidate to the deques.
